@@ -1785,6 +1785,8 @@ impl ElementMut for XmlElement {
         self.element
             .borrow_mut()
             .append_attribute(Rc::new(new_attr.attribute.into()));
+        // the attribute takes its place in document order: after its element, before the children
+        self.element.borrow().reset_order();
 
         Ok(attr.map(XmlAttr::from))
     }
